@@ -7,6 +7,6 @@ func init() {
 		// every case costs real time (outages, timeouts, the quiet window after
 		// Close): concurrency comes from the shard processes, one case at a time
 		// per process (goroutine baseline and starvation gate are process-wide)
-		{Run: "TestLifecycle", Quick: 96, Thorough: 1920, QShards: 16, TShards: 32, QTimeout: 8 * time.Minute, TTimeout: 60 * time.Minute},
+		{Run: "TestLifecycle", Quick: 96, Thorough: 1920, QShards: 16, TShards: 32, QTimeout: 12 * time.Minute, TTimeout: 60 * time.Minute},
 	}}
 }
